@@ -189,6 +189,108 @@ example : isRequireRelative [.parent, .normal ['a']] = true := by decide
 example : lookup [(['p', 'k', 'g'], [.cur, .normal ['P']])] ['p', 'k', 'g'] = some [.cur, .normal ['P']] ∧
     hasRoot [.normal ['x']] = false := by decide
 
+/-! ## luau mode heads -/
+
+theorem parent?_snoc_name (q : Path) (a : Name) : parent? (q ++ [.normal a]) = some q := by
+  simp [parent?]
+
+theorem relParent_snoc_name (q : Path) (a : Name) :
+    relParent (q ++ [.normal a]) = if q = [] then [.cur] else q := by
+  unfold relParent
+  rw [parent?_snoc_name]
+  cases q <;> simp
+
+theorem resolve_relParent_of_name (cwd : List Name) (q : Path) (a : Name) :
+    resolve cwd (relParent (q ++ [.normal a])) = (resolve cwd (q ++ [.normal a])).tail := by
+  rw [resolve_snoc, relParent_snoc_name]
+  cases q with
+  | nil => simp [resolve, resolveStep]
+  | cons c cs => simp [resolveStep]
+
+theorem endsInName_decompose {p : Path} (h : endsInName p = true) : ∃ q a, p = q ++ [.normal a] := by
+  unfold endsInName at h
+  split at h
+  · rename_i a t heq
+    exact ⟨t.reverse, a, by simpa using congrArg List.reverse heq⟩
+  · simp at h
+
+theorem HA_decompose {p : Path} (h : HA p = true) : ∃ q b a, p = q ++ [.normal b, .normal a] := by
+  unfold HA at h
+  split at h
+  · rename_i a b t heq
+    exact ⟨t.reverse, b, a, by simpa using congrArg List.reverse heq⟩
+  · simp at h
+
+theorem hasRoot_of_relative {req : Path} (h : isRequireRelative req = true) : hasRoot req = false := by
+  cases req with
+  | nil => rfl
+  | cons c cs => cases c <;> simp_all [isRequireRelative, hasRoot]
+
+/-- luau mode, ordinary requiring file: `./`/`../` requires start at the file's directory -/
+theorem luau_head_relative (m : LuauMode) (proj req source : Path) (cwd : List Name)
+    (hrel : isRequireRelative req = true) (hmod : isModuleFolderName initName source = false)
+    (hname : endsInName source = true) :
+    ∃ h, luauHead m proj req source = .ok h ∧
+      resolve cwd h = resolve (resolve cwd source).tail req := by
+  obtain ⟨q, a, rfl⟩ := endsInName_decompose hname
+  refine ⟨push (relParent (q ++ [.normal a])) req, by simp [luauHead, hrel, hmod], ?_⟩
+  simp only [push, hasRoot_of_relative hrel, Bool.false_eq_true, if_false, resolve_reparse,
+    resolve_append, resolve_relParent_of_name]
+
+/-- Full statement (the property's luau clause): from a module-folder file, `./`/`../`
+requires start at the *parent* of the file's directory. -/
+def luau_head_module_full : Prop :=
+  ∀ (m : LuauMode) (proj req source : Path) (cwd : List Name),
+    isRequireRelative req = true → isModuleFolderName initName source = true →
+    endsInName source = true →
+    ∃ h, luauHead m proj req source = .ok h ∧
+      resolve cwd h = resolve (resolve cwd source).tail.tail req
+
+/-- False (F25): from `init.luau` named without a directory, `./x` starts at the working
+directory itself (`get_relative_parent_path(".")` is `.`), not at its parent. -/
+theorem luau_head_module_full_false : ¬ luau_head_module_full := by
+  intro h
+  obtain ⟨h', h1, h2⟩ := h ⟨[], none⟩ [.cur] [.cur, .normal ['x']]
+    [.normal ['i', 'n', 'i', 't', '.', 'l', 'u', 'a', 'u']] [['w'], ['c']] (by decide) (by decide) (by decide)
+  have e : h' = [.cur, .normal ['x']] := by
+    have : luauHead ⟨[], none⟩ [.cur] [.cur, .normal ['x']]
+        [.normal ['i', 'n', 'i', 't', '.', 'l', 'u', 'a', 'u']] = .ok [.cur, .normal ['x']] := by rfl
+    rw [this] at h1
+    cases h1; rfl
+  subst e
+  revert h2; decide
+
+theorem luau_head_module_partial (m : LuauMode) (proj req source : Path) (cwd : List Name)
+    (hrel : isRequireRelative req = true) (hmod : isModuleFolderName initName source = true)
+    (hA : HA source = true) :
+    ∃ h, luauHead m proj req source = .ok h ∧
+      resolve cwd h = resolve (resolve cwd source).tail.tail req := by
+  obtain ⟨q, b, a, rfl⟩ := HA_decompose hA
+  refine ⟨push (relParent (relParent (q ++ [.normal b, .normal a]))) req, by simp [luauHead, hrel, hmod], ?_⟩
+  have e1 : q ++ [.normal b, .normal a] = (q ++ [.normal b]) ++ [.normal a] := by simp
+  have hp : relParent ((q ++ [.normal b]) ++ [.normal a]) = q ++ [.normal b] := by
+    rw [relParent_snoc_name]; simp
+  simp only [push, hasRoot_of_relative hrel, Bool.false_eq_true, if_false, resolve_reparse,
+    resolve_append]
+  rw [e1, hp, resolve_relParent_of_name]
+  simp [resolve, List.foldl_append, resolveStep]
+
+/-- `@self/…` starts at the requiring file's own directory -/
+theorem luau_head_self (m : LuauMode) (proj rest source : Path) (cwd : List Name)
+    (hrest : hasRoot rest = false) (hname : endsInName source = true) :
+    ∃ h, luauHead m proj (.normal selfName :: rest) source = .ok h ∧
+      resolve cwd h = resolve (resolve cwd source).tail rest := by
+  obtain ⟨q, a, rfl⟩ := endsInName_decompose hname
+  refine ⟨push (relParent (q ++ [.normal a])) rest, by simp [luauHead, isRequireRelative, hasRoot, compStr], ?_⟩
+  simp only [push, hrest, Bool.false_eq_true, if_false, resolve_reparse, resolve_append,
+    resolve_relParent_of_name]
+
+example : isRequireRelative [.cur, .normal ['x']] = true ∧
+    isModuleFolderName initName [.normal ['s'], .normal ['i', 'n', 'i', 't', '.', 'l', 'u', 'a']] = true ∧
+    HA [.normal ['s'], .normal ['i', 'n', 'i', 't', '.', 'l', 'u', 'a']] = true ∧
+    isModuleFolderName initName [.normal ['m', '.', 'l', 'u', 'a']] = false ∧
+    endsInName [.normal ['m', '.', 'l', 'u', 'a']] = true := by decide
+
 /-! ## normalize -/
 
 theorem normalize_idem (k : Bool) (p : Path) : normalize k (normalize k p) = normalize k p := by
